@@ -2018,7 +2018,7 @@ Definition null_in_wide_union (ss : schemas) : bool := existsb (fun o => any_sub
 Definition null_back (b b' : ty) : Prop := is_null b' = true -> is_null b = true.
 Lemma srel_null_back : forall t t', srel t t' -> null_back t t'.
 Proof.
-  intros t t' H. induction H as [t|t l Hl|t t' a H IH|a a' v v' H _|a a' i i' v v' Hi _ Hv _|a a' dh dh' fs fs' H _|a a' d d' H _|a a' bs bs' H _| | | | ]
+  intros t t' H. induction H as [t|t l Hl|t t' a H IH|a a' v v' H _|a a' i i' v v' Hi _ Hv _|a a' dh dh' fs fs' H _|a a' d d' H _|a a' bs bs' H _|a vs vs'| | | | ]
     using srel_ind2 with (P0 := fun _ _ _ => True) (P1 := fun _ _ _ => True); try exact I; unfold null_back; try (intros X; exact X);
     try (simpl; discriminate).
   - destruct l; simpl in Hl; try contradiction. simpl. discriminate.
